@@ -420,6 +420,11 @@ def standard_check(mod, tier, seed, replay=None):
                 finish(res, mod.ASSUMPTIONS, mod.RULE)
                 sys.exit(2)
         nviol = 0
+        active_known = set()
+        for e in load_known(mod.PROP):
+            if e.get('status') == 'known':
+                active_known.add(e.get('class') or e.get('id'))
+                active_known.add(e.get('id'))
         for i, c in enumerate(cases):
             res.evaluations += 1
             res.count(c.kind)
@@ -438,6 +443,8 @@ def standard_check(mod, tier, seed, replay=None):
                 # a property failure inside a recorded class is a known finding, not a new violation
                 kc = None
                 for cid, pred in getattr(mod, 'KNOWN_CLASSES', {}).items():
+                    if cid not in active_known and cid not in getattr(mod, 'DOMAIN_CLASSES', ()):
+                        continue      # only classes recorded as `known` excuse anything (a `fixed` entry suppresses nothing)
                     try:
                         if pred(c, io, mo):
                             kc = cid
